@@ -31,6 +31,26 @@ Proof.
 Qed.
 
 (* ------------------------------------------------------------------ C04: exact undo of a replace step *)
+(* general form: the inverse applied to ANY valid document with the result's token sequence *)
+Theorem replace_step_undo_on from to sl structure doc d' inv e d'' :
+  V doc -> OpenS sl -> from <= to ->
+  apply s (SReplace from to sl structure) doc = ROk d' ->
+  invert_step s (SReplace from to sl structure) doc = Ok inv ->
+  V e -> DT e = DT d' ->
+  apply s inv e = ROk d'' ->
+  DT d'' = DT doc.
+Proof.
+  intros Hd Ho Hft Ha Hi He HeT Hb. pose proof (OpenOK_Shape s _ _ _ Ho) as Hs.
+  cbn [invert_step] in Hi. destruct (node_slice s doc from to) as [old|] eqn:Eo; [|discriminate]. cbn [bind] in Hi.
+  inversion Hi; subst inv. clear Hi.
+  destruct (node_slice_IT _ _ _ _ Hft Eo) as (Hso & Hio).
+  destruct (replace_step_keeps_outside s _ _ _ _ _ _ Hd Hs Ha) as (K1 & _ & K3).
+  destruct (replace_step_splice s _ _ _ _ _ _ He Hso Hb) as (_ & _ & E).
+  pose proof (IT_length s sl Hs) as Hl.
+  replace (Z.to_nat (Z.of_nat from + slice_size s sl)) with (from + length (IT sl)) in E by lia.
+  rewrite E, HeT, K1, K3, Hio. symmetry. apply split3. exact Hft.
+Qed.
+
 Theorem replace_step_undo from to sl structure doc d' inv d'' :
   V doc -> OpenS sl -> from <= to ->
   apply s (SReplace from to sl structure) doc = ROk d' ->
@@ -38,16 +58,8 @@ Theorem replace_step_undo from to sl structure doc d' inv d'' :
   apply s inv d' = ROk d'' ->
   DT d'' = DT doc.
 Proof.
-  intros Hd Ho Hft Ha Hi Hb. pose proof (OpenOK_Shape s _ _ _ Ho) as Hs.
-  cbn [invert_step] in Hi. destruct (node_slice s doc from to) as [old|] eqn:Eo; [|discriminate]. cbn [bind] in Hi.
-  inversion Hi; subst inv. clear Hi.
-  destruct (node_slice_IT _ _ _ _ Hft Eo) as (Hso & Hio).
-  pose proof (apply_replace_valid s _ _ _ _ _ _ Hd Ho Ha) as Hd'.
-  destruct (replace_step_keeps_outside s _ _ _ _ _ _ Hd Hs Ha) as (K1 & _ & K3).
-  destruct (replace_step_splice s _ _ _ _ _ _ Hd' Hso Hb) as (_ & _ & E).
-  pose proof (IT_length s sl Hs) as Hl.
-  replace (Z.to_nat (Z.of_nat from + slice_size s sl)) with (from + length (IT sl)) in E by lia.
-  rewrite E, K1, K3, Hio. symmetry. apply split3. exact Hft.
+  intros Hd Ho Hft Ha Hi Hb.
+  exact (replace_step_undo_on _ _ _ _ _ _ _ d' _ Hd Ho Hft Ha Hi (apply_replace_valid s _ _ _ _ _ _ Hd Ho Ha) eq_refl Hb).
 Qed.
 
 (* the inverse step's map is the original's map, inverted *)
